@@ -14,7 +14,7 @@ Definition ex_cell : cell := [ex_s7; ex_s0; ex_s3; ex_s1].
 
 Example ex_wf : wf ex_cell.
 Proof.
-  exists [ex_s7; ex_s0; ex_s1; ex_s3]. split.
+  apply built_wf. exists [ex_s7; ex_s0; ex_s1; ex_s3]. split.
   - eapply topo_leaf with (p := 1) (f := (1 # 4)%Q); [|reflexivity|simpl; tauto|simpl; intuition discriminate].
     eapply topo_leaf with (p := 3) (f := 1%Q); [|reflexivity|simpl; tauto|simpl; intuition discriminate].
     eapply topo_leaf with (p := 3) (f := (1 # 2)%Q); [|reflexivity|simpl; tauto|simpl; intuition discriminate].
